@@ -288,6 +288,18 @@ func child(c *kit.Ctx, role string) {
 				ok = guarded(s, fmt.Sprintf("failing-stop/%d", i), func() bool { runFailingStop(s, c, i, st); return true })
 			}
 		}
+		for i := 0; i < 12 && ok; i++ {
+			if c.Want(fmt.Sprintf("stop-inflight/%d", i)) {
+				i := i
+				ok = guarded(s, fmt.Sprintf("stop-inflight/%d", i), func() bool { return runStopInflight(s, c, i, st) })
+			}
+		}
+		for i := 0; i < p.reest && ok; i++ {
+			if c.Want(fmt.Sprintf("partial-start/%d", i)) {
+				i := i
+				ok = guarded(s, fmt.Sprintf("partial-start/%d", i), func() bool { runPartialStart(s, c, i, st); return true })
+			}
+		}
 		for i := 0; i < 6 && ok; i++ {
 			if c.Want(fmt.Sprintf("xr-watch-starter/%d", i)) {
 				i := i
